@@ -95,6 +95,7 @@ type Node struct {
 	Timer *VTimer
 	D     *dbft.DBFT[H]
 
+	initLedger *LedgerRec // the ledger given to the library at the last Start / Reset
 	// application ledger
 	Height  uint32
 	TipHash H
@@ -683,7 +684,16 @@ func (n *Node) ledgerRec() LedgerRec {
 }
 
 func (n *Node) call(name string, arg any, f func()) *Line {
-	l := &Line{N: n.ID, Now: n.Clk.Now, Call: name, Arg: arg, Ledger: n.ledgerRec(), App: n.appRec()}
+	// `ledger` is the application ledger as the library saw it: the library reads it during Start / Reset only, so between two
+	// initialisations the line carries the ledger of the last one (the application's own ledger may already have moved on:
+	// a block fetched from a peer before Reset is called)
+	led := n.ledgerRec()
+	if name == "Start" || name == "Reset" || n.initLedger == nil {
+		n.initLedger = &led
+	} else {
+		led = *n.initLedger
+	}
+	l := &Line{N: n.ID, Now: n.Clk.Now, Call: name, Arg: arg, Ledger: led, App: n.appRec()}
 	n.cbs = []CbRec{}
 	n.nAPI++
 	func() {
